@@ -730,6 +730,19 @@ pub fn run_scenario(scn: &Value, workdir: &str, tr: &mut Trace) {
             }
         }
     }
+    // inotify watches: which of the listed files does the dump open?
+    let mut watches: Vec<(i32, String)> = Vec::new();
+    let ifd = unsafe { libc::inotify_init1(libc::IN_NONBLOCK) };
+    for w in scn.get("watch").and_then(|v| v.as_array()).cloned().unwrap_or_default() {
+        if let Some(pth) = w.as_str() {
+            if let Ok(c) = std::ffi::CString::new(pth) {
+                let wd = unsafe { libc::inotify_add_watch(ifd, c.as_ptr(), libc::IN_OPEN) };
+                if wd >= 0 {
+                    watches.push((wd, pth.to_string()));
+                }
+            }
+        }
+    }
     let before = if scn.get("observe").and_then(|v| v.as_bool()).unwrap_or(false) { Some(observe_target(&t, 50)) } else { None };
     let out_path = format!("{workdir}/worker_{}.ndjson", std::process::id());
     let _ = std::fs::remove_file(&out_path);
@@ -768,10 +781,30 @@ pub fn run_scenario(scn: &Value, workdir: &str, tr: &mut Trace) {
         }
     }
     let _ = std::fs::remove_file(&out_path);
+    let mut opened: Vec<String> = Vec::new();
+    if ifd >= 0 {
+        let mut buf = [0u8; 4096];
+        loop {
+            let n = unsafe { libc::read(ifd, buf.as_mut_ptr().cast(), buf.len()) };
+            if n <= 0 {
+                break;
+            }
+            let mut o = 0usize;
+            while o + 16 <= n as usize {
+                let wd = i32::from_ne_bytes(buf[o..o + 4].try_into().unwrap());
+                let len = u32::from_ne_bytes(buf[o + 12..o + 16].try_into().unwrap()) as usize;
+                if let Some((_, pth)) = watches.iter().find(|(w, _)| *w == wd) {
+                    opened.push(pth.clone());
+                }
+                o += 16 + len;
+            }
+        }
+        unsafe { libc::close(ifd) };
+    }
     for tid in &pretraced {
         unsafe { libc::ptrace(libc::PTRACE_DETACH, *tid, 0, 0) };
     }
-    let mut end = json!({"ev":"end","id":id,"worker":outcome,"wall_s":t0.elapsed().as_secs_f64(),"pretraced":pretraced});
+    let mut end = json!({"ev":"end","id":id,"worker":outcome,"wall_s":t0.elapsed().as_secs_f64(),"pretraced":pretraced,"opened":opened,"watched":watches.len()});
     if scn.get("observe").and_then(|v| v.as_bool()).unwrap_or(false) {
         end["before"] = before.unwrap_or(Value::Null);
         end["after"] = observe_target(&t, 300);
